@@ -127,6 +127,24 @@ def _has_return(stmts):
     return any(isinstance(n, ast.Return) for n in _own_walk(stmts))
 
 
+def _assign_result(target, val, at):
+    """Statements storing a returned value into ``target`` (a name, or a
+    list of names for a caller that unpacks a tuple: a tuple display is then
+    stored element by element, in evaluation order)."""
+    if isinstance(target, list):
+        if isinstance(val, ast.Tuple) and len(val.elts) == len(target):
+            return [ast.copy_location(ast.Assign(
+                targets=[ast.Name(id=t, ctx=ast.Store())],
+                value=copy_node(e)), at) for t, e in zip(target, val.elts)]
+        return [ast.copy_location(ast.Assign(
+            targets=[ast.Tuple(elts=[ast.Name(id=t, ctx=ast.Store())
+                                     for t in target], ctx=ast.Store())],
+            value=copy_node(val)), at)]
+    return [ast.copy_location(ast.Assign(
+        targets=[ast.Name(id=target, ctx=ast.Store())],
+        value=copy_node(val)), at)]
+
+
 def _conv_tail(stmts, target, at):
     """Statements with every (tail-position) ``return e`` turned into
     ``target = e``; None when a return is not in tail position (inside a
@@ -140,9 +158,7 @@ def _conv_tail(stmts, target, at):
                 return None
             val = st.value if st.value is not None else ast.Constant(
                 value=None)
-            out.append(ast.copy_location(ast.Assign(
-                targets=[ast.Name(id=target, ctx=ast.Store())],
-                value=copy_node(val)), st))
+            out.extend(_assign_result(target, val, st))
             return out
         if isinstance(st, ast.If) and (_has_return(st.body)
                                        or _has_return(st.orelse)):
@@ -162,22 +178,89 @@ def _conv_tail(stmts, target, at):
             else:
                 if not _ends_in_return(st.body):
                     return None
-                orelse = _conv_tail(rest, target, st) if rest else [
-                    ast.copy_location(ast.Assign(
-                        targets=[ast.Name(id=target, ctx=ast.Store())],
-                        value=ast.Constant(value=None)), st)]
+                orelse = _conv_tail(rest, target, st) if rest else \
+                    _assign_result(target, ast.Constant(value=None), st)
             if orelse is None:
                 return None
             new = ast.If(test=copy_node(st.test), body=body, orelse=orelse)
             out.append(ast.copy_location(new, st))
             return out
+        if isinstance(st, ast.Try) and _has_return([st]):
+            # a try statement whose arms return, as the last statement (or
+            # followed by code that is only reached when no arm returned)
+            if _has_return(st.finalbody):
+                return None
+            rest = stmts[i + 1:]
+            arms_return = _ends_in_return(st.body + st.orelse) and all(
+                _ends_in_return(h.body) or (
+                    h.body and isinstance(h.body[-1], ast.Raise))
+                for h in st.handlers)
+            if rest and arms_return:
+                return None
+            handlers_leave = all(
+                _ends_in_return(h.body) or (
+                    h.body and isinstance(h.body[-1], ast.Raise))
+                for h in st.handlers)
+            if rest and not arms_return and handlers_leave and not \
+                    _has_return(st.body) and not st.orelse:
+                # the code after the try runs exactly when the body
+                # completed: it is the try's else arm
+                no = _conv_tail(rest, target, st)
+                nh = []
+                for h in st.handlers:
+                    hb = [copy_node(x) for x in h.body] if isinstance(
+                        h.body[-1], ast.Raise) else _conv_tail(
+                            h.body, target, st)
+                    if hb is None:
+                        return None
+                    h2 = ast.ExceptHandler(type=copy_node(h.type),
+                                           name=h.name, body=hb)
+                    nh.append(ast.copy_location(h2, h))
+                if no is None:
+                    return None
+                new = ast.Try(body=[copy_node(x) for x in st.body],
+                              handlers=nh, orelse=no,
+                              finalbody=[copy_node(x)
+                                         for x in st.finalbody])
+                out.append(ast.copy_location(new, st))
+                return out
+            if rest and (_has_return(st.body) or _has_return(st.orelse) or any(
+                    _has_return(h.body) for h in st.handlers)) and not \
+                    arms_return:
+                return None
+
+            def arm(blk):
+                if not blk:
+                    return blk
+                if isinstance(blk[-1], ast.Raise) or not _has_return(blk):
+                    return [copy_node(x) for x in blk]
+                return _conv_tail(blk, target, st)
+            nb = arm(st.body) if not st.orelse else [copy_node(x)
+                                                     for x in st.body]
+            no = arm(st.orelse)
+            if st.orelse and _has_return(st.body):
+                return None
+            nh = []
+            for h in st.handlers:
+                hb = arm(h.body)
+                if hb is None:
+                    return None
+                h2 = ast.ExceptHandler(type=copy_node(h.type), name=h.name,
+                                       body=hb)
+                nh.append(ast.copy_location(h2, h))
+            if nb is None or no is None:
+                return None
+            new = ast.Try(body=nb, handlers=nh, orelse=no or [],
+                          finalbody=[copy_node(x) for x in st.finalbody])
+            out.append(ast.copy_location(new, st))
+            if not rest:
+                return out
+            continue
         if _has_return([st]):
             return None
         out.append(copy_node(st))
     # fell off the end: implicit return None
-    out.append(ast.copy_location(ast.Assign(
-        targets=[ast.Name(id=target, ctx=ast.Store())],
-        value=ast.Constant(value=None)), at))
+    out.extend(_assign_result(target, ast.Constant(value=None), at))
     return out
 
 
@@ -301,10 +384,17 @@ def expand(fn, call, target=None):
     k = _COUNTER[0]
     if se is None:
         rname = '__ret%d' % k
-        tb = tail_exit(fn, rname)
-        if tb is None:
-            return None
-        body, res = tb, ast.Name(id=rname, ctx=ast.Load())
+        if isinstance(target, list):
+            # the caller unpacks the result into these names
+            tb = tail_exit(fn, list(target))
+            if tb is None:
+                return None
+            body, res = tb, None
+        else:
+            tb = tail_exit(fn, rname)
+            if tb is None:
+                return None
+            body, res = tb, ast.Name(id=rname, ctx=ast.Load())
     else:
         body, res = se
     bound = _bind_args(fn, call)
@@ -322,7 +412,12 @@ def expand(fn, call, target=None):
                              value=copy_node(a))
             ast.copy_location(asg, call)
             pro.append(asg)
-    if target and isinstance(res, ast.Name) and res.id in assigned and \
+    if isinstance(target, list):
+        # names of the caller: not renamed, not shadowed by helper locals
+        for t in target:
+            names[t] = t
+    if target and not isinstance(target, list) and isinstance(
+            res, ast.Name) and res.id in assigned and \
             res.id not in bound and not any(
                 isinstance(x, ast.Name) and x.id == target
                 for a_ in bound.values() for x in ast.walk(a_)) and (
@@ -599,6 +694,20 @@ def _expand_stmt(st, defs, cms, owner):
         if whole and isinstance(st, ast.Assign) and len(
                 st.targets) == 1 and isinstance(st.targets[0], ast.Name):
             tgt = st.targets[0].id
+        elif whole and isinstance(st, ast.Assign) and len(
+                st.targets) == 1 and isinstance(
+                    st.targets[0], ast.Tuple) and all(
+                        isinstance(x, ast.Name)
+                        for x in st.targets[0].elts) and single_exit(
+                            fn) is None:
+            names_ = [x.id for x in st.targets[0].elts]
+            used = {x.id for a_ in list(call.args) + [
+                k_.value for k_ in call.keywords] for x in ast.walk(a_)
+                if isinstance(x, ast.Name)}
+            if not (set(names_) & used):
+                ex = expand(fn, call, names_)
+                if ex is not None and ex[1] is None:
+                    return ex[0]
         ex = expand(fn, call, tgt)
         if ex is None:
             continue
